@@ -43,10 +43,12 @@ ENCODED = [
 
 
 def _perm(seq, k):
-    """deterministic k-th 'convention': rotate by k and swap the first two"""
+    """deterministic k-th 'convention': rotate by k and swap the first two (k = 9: reversed)"""
     seq = list(seq)
     if k == 0 or len(seq) < 2:
         return seq
+    if k == 9:
+        return seq[::-1]
     k = k % len(seq)
     seq = seq[k:] + seq[:k]
     seq[0], seq[1] = seq[1], seq[0]
@@ -55,7 +57,7 @@ def _perm(seq, k):
 
 def _sph_convention(l, k):
     labs = H.default_sph_labels(l)
-    if k == 0:
+    if k in (0, 9):  # 9: only the Cartesian order differs from the default
         return labs
     labs = _perm(labs, k)
     return [("-" + x) if (i + k) % 3 == 0 else x for i, x in enumerate(labs)]
@@ -131,14 +133,13 @@ class Dummy(Case):
 
     def _objs(self, I, mk):
         p = self.params
-        conv = p.get("conv", 0)
-        cls = _shell_class(conv)
         out = []
         for key, types in (("shells", p["types"]), ("shells2", p.get("types2"))):
             if key not in I:
                 continue
             objs = []
-            for s, t in zip(I[key], types):
+            for ish, (s, t) in enumerate(zip(I[key], types)):
+                cls = _shell_class(self._conv_of(key, ish))
                 o = cls.__new__(cls)
                 o._angmom = s["l"]
                 o._coord = None
@@ -150,6 +151,12 @@ class Dummy(Case):
                 objs.append(o)
             out.append(objs)
         return out
+
+    def _conv_of(self, key, ish):
+        p = self.params
+        if "convs" in p and key == "shells":
+            return p["convs"][ish]
+        return p.get("conv", 0)
 
     def code(self, I, mk):
         p = self.params
@@ -208,10 +215,10 @@ class Dummy(Case):
 
     def _weights(self, I, ops, key, types, Tkey):
         """matrix W[f][j] over flattened cartesian primitives-functions j = (shell, m, c) and the list of those keys"""
-        conv = self.params.get("conv", 0)
         cart_keys = []
         rows = []
-        for s, t in zip(I[key], types):
+        for ish, (s, t) in enumerate(zip(I[key], types)):
+            conv = self._conv_of(key, ish)
             co = _perm(G.comps(s["l"]), conv)
             base = len(cart_keys)
             for m in range(s["M"]):
@@ -398,6 +405,10 @@ def cases(tier):
         out.append(Dummy(kind=kind, ls=[1, 2], Ms=[2, 1], types="cs", extra=[2], nt=3))
         out.append(Dummy(kind=kind, ls=[1, 2], Ms=[2, 1], types="ss", extra=[], nt=4))
         out.append(Dummy(kind=kind, ls=[1, 0], Ms=[1, 2], types="cc", extra=[], nt=2))
+        # shells of the same l with different conventions side by side (default next to a reordered one)
+        out.append(Dummy(kind=kind, ls=[2, 2, 1], Ms=[1, 1, 1], types="ssc", extra=[], convs=[0, 9, 0]))
+        out.append(Dummy(kind=kind, ls=[2, 2], Ms=[1, 2], types="ss", extra=[2], convs=[9, 0]))
+        out.append(Dummy(kind=kind, ls=[1, 1, 2], Ms=[1, 1, 1], types="scs", extra=[], convs=[1, 0, 2]))
         for conv in (1, 2, 3):
             out.append(Dummy(kind=kind, ls=[2, 1], Ms=[1, 2], types="sc", extra=[], conv=conv))
             out.append(Dummy(kind=kind, ls=[1, 3] if tier == "thorough" else [1, 2], Ms=[2, 1], types="cs", extra=[2], conv=conv))
@@ -417,6 +428,7 @@ def cases(tier):
     out.append(Dummy(kind="four_symm", ls=[0, 1, 0], Ms=[1, 1, 2], types="csc"))
     out.append(Dummy(kind="four_symm", ls=[0, 1], Ms=[2, 1], types="cs", nt=2))
     out.append(Dummy(kind="four_symm", ls=[1, 0], Ms=[1, 1], types="sc", conv=1))
+    out.append(Dummy(kind="four_symm", ls=[1, 1], Ms=[1, 1], types="ss", convs=[0, 9]))
     out.append(Dummy(kind="four_symm", ls=[1], Ms=[2], types="s", via="mix"))
     if tier == "thorough":
         out.append(Dummy(kind="four_symm", ls=[0, 1, 2], Ms=[1, 1, 1], types="csc"))
